@@ -116,6 +116,16 @@ def _render_check(item):
             if got != want:
                 errs.append('report block "%s": %r vs record %r' % (a['msg'][:40], sorted(got.items())[:4], sorted(want.items())[:4])); break
         hexdump = d.encode('utf-8').hex() + '.'
+        # the three renderings of one (interrupted) record are renderings of the same record: asking for all of them, as
+        # Droop.main does, adds the interruption note once
+        n0 = len(acts)
+        r3 = E.report(True); d3 = E.dump(True); j3 = json.loads(E.json(True))
+        n3 = len(E.record()['actions'])
+        if n3 != n0 + 1:
+            errs.append('report+dump+json of an interrupted record add %d actions to the record (expected the one note)' % (n3 - n0))
+        if len(d3.split('\n')) - 2 != n3 or len(j3['actions']) != n3:
+            errs.append('renderings of the interrupted record disagree on the number of actions: dump %d, json %d, record %d'
+                        % (len(d3.split('\n')) - 2, len(j3['actions']), n3))
     except Exception as e:
         import traceback
         return ('exc', type(e).__name__ + ' ' + traceback.format_exc()[-300:], None)
